@@ -459,3 +459,143 @@ class Intern(SimpleCorr):
 
 
 REGISTRY["C18"] = Intern()
+
+
+# =====================================================================================
+# C14: attribute blobs (byte-exact attr correspondence + independent document codec)
+# =====================================================================================
+class Attr(SimpleCorr):
+    kind = "attr"
+    rule = ("generated attribute maps (0-40 entries in BTreeMap order; names incl. empty, multi-byte and 70 kB; all 19 supported types "
+            "from boundary pools: every float class, all 24 rotations with ulp neighbours and scaled bases, every BrickColor number, "
+            "fonts with/without cached face; 8 % of maps contain unsupported types) are encoded by Attributes::to_writer and by the "
+            "extracted attr_encode: bytes (or error class) must be identical; both decode the bytes: results identical; a separate "
+            "malformed stream (every prefix of a blob holding all types, all 256 type ids, all rotation id bytes, truncations, bit "
+            "flips, huge lengths/counts, hostile UTF-8, glued/unsorted/duplicate entries, noise) is decoded by both: result or error "
+            "class identical; the document codec AttrSpec (written from docs/attributes.md) decodes every implementation blob to the "
+            "same map, and its own encoding of every map is fed to the real reader, which must return the map the document "
+            "describes; BrickColor table validated for all 65536 numbers, rotation primitives on boundary vectors; "
+            "non-trivial = map with >= 2 entries or byte string of >= 8 bytes, distinct by case text")
+    assumptions = ["f32 comparisons of approx_unit_or_zero are modelled by integer thresholds on the bit pattern (validated by attr-sweep against Vector3::to_normal_id: all exponent boundaries and 2M random patterns per quick run, all 2^32 patterns in the thorough tier)",
+                   "allocation failure (Vec::with_capacity / vec![0; n] with a length field read from the blob) is outside the model; such inputs are reported for C13 (alloc-abort), not compared",
+                   "the harness classifies the private AttributeError by its Display text"]
+
+    def gen_cmds(self, seed, tier):
+        return [["--seed", str(seed), "--cases", "5000" if tier == "quick" else "150000"]]
+
+    # ---- spec-side lines
+    @staticmethod
+    def _payload(lines, prefix):
+        for l in lines:
+            if l.startswith(prefix):
+                return l[len(prefix):]
+        return None
+
+    def run_cases(self, d, blocks, tag):
+        impl, model, orc, st = SimpleCorr.run_cases(self, d, blocks, tag)
+        # second pass: what the document codec writes for each map goes through the real reader, which must
+        # return the map the document describes (SPEC want); model and implementation are compared on it as usual
+        extra = []
+        for cid, lines in blocks:
+            ml = model.get(cid, [])
+            enc, want = self._payload(ml, "SPEC enc OK "), self._payload(ml, "SPEC want OK ")
+            if enc is not None and want is not None:
+                extra.append((cid + ".spec", ["bytes " + enc.strip(), "expect " + want.strip()]))
+        self.extra_blocks = extra
+        if extra:
+            impl2, model2, orc2, st2 = SimpleCorr.run_cases(self, d, extra, tag + "-spec")
+            impl.update(impl2); model.update(model2); orc += orc2
+            st["spec_encoded_blobs_read_by_impl"] = len(extra)
+        return impl, model, orc, st
+
+    def disagreements(self, blocks, impl, model):
+        out = []
+        stats = {"spec_dec_agrees": 0, "spec_dec_doc_silent_on_empty_blob": 0, "spec_reads_back": 0,
+                 "bytes_spec_and_impl_ok_equal": 0, "bytes_spec_and_impl_ok_differ": 0, "bytes_both_reject": 0,
+                 "bytes_impl_rejects_spec_accepts": 0, "alloc_abort_cases_not_compared": 0}
+        for cid, lines in list(blocks) + list(getattr(self, "extra_blocks", [])):
+            io = impl.get(cid, [])
+            ml = model.get(cid, [])
+            mo = [l for l in ml if not l.startswith("SPEC ")]
+            if any(l == "dec ABORT" for l in io):
+                stats["alloc_abort_cases_not_compared"] += 1
+                continue
+            bad = None
+            for k in range(max(len(io), len(mo))):
+                a = io[k] if k < len(io) else "<missing>"
+                b = mo[k] if k < len(mo) else "<missing>"
+                if a != b:
+                    bad = (cid, k, "observation %d: implementation `%s` vs model `%s`" % (k, a[:160], b[:160]))
+                    break
+            if bad is None:
+                dec = self._payload(ml, "dec ")
+                sdec = self._payload(ml, "SPEC dec ")
+                if dec is not None and sdec is not None:
+                    if sdec == dec:
+                        stats["spec_dec_agrees"] += 1
+                    elif dec.strip() == "OK 0" and self._payload(ml, "enc ") in ("OK -", "OK - "):
+                        stats["spec_dec_doc_silent_on_empty_blob"] += 1      # zero bytes: not a blob of the document
+                    else:
+                        bad = (cid, 1, "document codec disagrees: spec_decode(attr_encode m) = `%s` but the codec decodes `%s`" % (sdec[:160], dec[:160]))
+                rdec, want = self._payload(ml, "SPEC rdec "), self._payload(ml, "SPEC want ")
+                if bad is None and rdec is not None and want is not None:
+                    if rdec == want:
+                        stats["spec_reads_back"] += 1
+                    else:
+                        bad = (cid, 2, "document codec disagrees: attr_decode(spec_encode m) = `%s`, the document describes `%s`" % (rdec[:160], want[:160]))
+                bdec = self._payload(ml, "SPEC bdec ")
+                if bad is None and bdec is not None and dec is not None:
+                    s_ok, i_ok = bdec.startswith("OK"), dec.startswith("OK")
+                    if s_ok and i_ok:
+                        stats["bytes_spec_and_impl_ok_equal" if bdec == dec else "bytes_spec_and_impl_ok_differ"] += 1
+                    elif not s_ok and not i_ok:
+                        stats["bytes_both_reject"] += 1
+                    elif s_ok:
+                        stats["bytes_impl_rejects_spec_accepts"] += 1
+                    elif lines and lines[0].strip() != "bytes -":
+                        bad = (cid, 1, "the codec accepts a blob the document cannot describe: `%s` (spec: %s)" % (dec[:160], bdec[:60]))
+            if bad:
+                out.append(bad)
+        self.spec_stats = stats
+        if getattr(self, "_out", None) is not None:
+            self._out.coverage["document_codec"] = stats
+        return out
+
+    def shrink_candidates(self, lines):
+        if lines and lines[0].startswith("map "):
+            ents = [l for l in lines if l.startswith("e ")]
+            for k in range(len(ents) - 1, -1, -1):
+                rest = ents[:k] + ents[k + 1:]
+                yield ["map %x" % len(rest)] + rest
+        elif lines and lines[0].startswith("bytes "):
+            h = lines[0][6:].strip()
+            h = "" if h == "-" else h
+            n = len(h) // 2
+            tail = lines[1:]
+            for cut in (n // 2, n // 4, 4, 1):
+                if 0 < cut < n:
+                    yield ["bytes " + h[:2 * (n - cut)]] + tail
+            for k in range(min(n, 40)):
+                if h[2 * k:2 * k + 2] != "00":
+                    yield ["bytes " + h[:2 * k] + "00" + h[2 * k + 2:]] + tail
+
+    def known_key(self, pid, oracle_line, case_lines):
+        return "rotation-snap" if "rotation-snap" in oracle_line else None
+
+    def extra(self, pid, out, tier, seed, d):
+        lines = []
+        self._out = out            # disagreements() runs after this hook and files its statistics there
+        args = [vlib.harness_bin(), "attr-sweep", "--seed", str(seed)] + (["--thorough"] if tier == "thorough" else [])
+        rc, o, _ = vlib.run(args, timeout=6000)
+        out.coverage["threshold_sweep"] = o.strip().split("\n")[-1]
+        if rc != 0:
+            lines.append("C14 threshold sweep: harness crashed: " + o[-300:])
+        lines += [l for l in o.split("\n") if l.startswith("C14 ")]
+        rc, o, _ = vlib.run([vlib.harness_bin(), "val-selftest", "--seed", str(seed), "--cases", "8000"], timeout=600)
+        out.coverage["value_wire_format_selftest"] = o.strip().split("\n")[-1]
+        if rc != 0:
+            lines.append("C14 value wire format self-test failed: " + o[-300:])
+        return lines
+
+
+REGISTRY["C14"] = Attr()
